@@ -81,7 +81,9 @@ def decodeActions (data : Slice) (limit : Nat) (n0 : Nat) (xs0 : List V) : R St 
       match DecodeAction (d.len + 1) d with
       | .ok act => do
         let (l, act') ← Action.lenM act
-        pure { n := s.n + l.toNat, xs := s.xs ++ [act'], err := false }
+        -- `if act.Len() == 0 { return errors.New(...) }`
+        if l = 0 then pure { s with err := true }
+        else pure { n := s.n + l.toNat, xs := s.xs ++ [act'], err := false }
       | .err => .ok { s with err := true }
       | .panic => .panic
       | .spin => .spin)
@@ -366,6 +368,7 @@ def unmarshal (recv : V) (data : Slice) : R V :=
         -- bkt := new(Bucket); bkt.UnmarshalBinary(data[n:])  (error ignored);  append(*bkt);  n += bkt.Len()
         let (b, _) ← Bucket.unmarshalP Bucket.zero d
         let (l, b') ← Bucket.lenM b
+        if l = 0 then .err else
         pure { n := s.n + l.toNat, xs := s.xs ++ [b'], err := false })
       { n := 16, xs := bs0, err := false }
     pure (.obj "GroupMod" [h, V.u16 cmd, V.u8 t, V.u8 p, V.u32 g, .list st.xs])
@@ -443,6 +446,7 @@ def unmarshal (recv : V) (data : Slice) : R V :=
         let d ← data.fromR s.n
         let i ← DecodeInstr d
         let (l, i') ← Instruction.lenM i
+        if l = 0 then .err else
         pure { n := s.n + l.toNat, xs := s.xs ++ [i'], err := false })
       { n := 48 + ml.toNat, xs := is0, err := false }
     pure (.obj "FlowMod" [h, V.u64 ck, V.u64 cm, V.u8 tid, V.u8 cmd, V.u16 it, V.u16 ht, V.u16 pr, V.u32 bid,
